@@ -74,6 +74,7 @@ func c03Valid(w world.World) bool {
 
 func (C03) Gen(r *simrt.RNG, tier string) core.Case {
 	cfg := world.SwarmCfg(r)
+	world.Deepen(&cfg, r, tier)
 	cfg.Ifaces = false
 	cfg.RepeatPos = r.Chance(1, 5) // func(a, b T): two parameters, one key
 	cfg.Arrays = r.Chance(1, 6)
